@@ -32,14 +32,22 @@ type c02Reader struct {
 	failAt  int // -1: never
 	seeker  bool
 	seekErr bool
+	errCls  int  // index into c02Errs
+	errWith bool // the error is returned together with the last bytes before failAt
 }
+
+// c02Errs: error values of a failing reader. "An error is returned => the value is
+// exactly application/octet-stream" holds for whatever error the library decides
+// to return, so the list includes the end-of-input look-alikes a real source can
+// produce itself (a truncated gzip stream returns io.ErrUnexpectedEOF).
+var c02Errs = append([]error{errC02, io.ErrUnexpectedEOF, fmt.Errorf("gzip: %w", io.ErrUnexpectedEOF), fmt.Errorf("body: %w", io.EOF), io.ErrShortWrite}, errClasses[1:]...)
 
 func (r *c02Reader) Read(p []byte) (int, error) {
 	if len(p) == 0 {
 		return 0, nil
 	}
 	if r.failAt >= 0 && r.pos >= r.failAt {
-		return 0, errC02
+		return 0, c02Errs[r.errCls%len(c02Errs)]
 	}
 	if r.pos >= len(r.b) {
 		return 0, io.EOF
@@ -56,6 +64,9 @@ func (r *c02Reader) Read(p []byte) (int, error) {
 	}
 	copy(p, r.b[r.pos:r.pos+n])
 	r.pos += n
+	if r.errWith && r.failAt >= 0 && r.pos == r.failAt && n > 0 {
+		return n, c02Errs[r.errCls%len(c02Errs)]
+	}
 	return n, nil
 }
 
@@ -73,16 +84,18 @@ func (r *c02SeekReader) Seek(off int64, whence int) (int64, error) {
 }
 
 type c02Case struct {
-	Kind   string `json:"kind"`
-	In     []byte `json:"in"`
-	Limit  uint32 `json:"limit"`
-	Entry  string `json:"entry"` // Detect, DetectReader, DetectReaderFail, DetectReaderSeekFail, DetectFile, DetectFileMissing, DetectFileDir
-	FailAt int    `json:"fail_at"`
-	InQ    string `json:"in_quoted"`
+	Kind    string `json:"kind"`
+	In      []byte `json:"in"`
+	Limit   uint32 `json:"limit"`
+	Entry   string `json:"entry"` // Detect, DetectReader, DetectReaderFail, DetectReaderSeekFail, DetectFile, DetectFileMissing, DetectFileDir
+	FailAt  int    `json:"fail_at"`
+	ErrCls  int    `json:"err_class"`
+	ErrWith bool   `json:"err_with_data"`
+	InQ     string `json:"in_quoted"`
 }
 
 func c02Judge(c *fw.Ctx, k c02Case) {
-	key := fw.InputKey(k.In, k.Limit, fmt.Sprintf("%s/%d", k.Entry, k.FailAt))
+	key := fw.InputKey(k.In, k.Limit, fmt.Sprintf("%s/%d/errclass=%d/%v", k.Entry, k.FailAt, k.ErrCls, k.ErrWith))
 	k.InQ = ""
 	c.Trace(func() (string, any) { k2 := k; k2.InQ = fw.Quote(k.In, 120); return key, k2 })
 	var m *mimetype.MIME
@@ -95,7 +108,7 @@ func c02Judge(c *fw.Ctx, k c02Case) {
 		case "DetectReader":
 			m, err = mimetype.DetectReader(&c02Reader{b: k.In, failAt: -1})
 		case "DetectReaderFail":
-			m, err = mimetype.DetectReader(&c02Reader{b: k.In, failAt: k.FailAt})
+			m, err = mimetype.DetectReader(&c02Reader{b: k.In, failAt: k.FailAt, errCls: k.ErrCls, errWith: k.ErrWith})
 		case "DetectReaderSeekOK":
 			m, err = mimetype.DetectReader(&c02SeekReader{c02Reader{b: k.In, failAt: -1}})
 		case "DetectReaderSeekFail":
@@ -146,7 +159,8 @@ func c02Judge(c *fw.Ctx, k c02Case) {
 		}
 	}
 	if err != nil {
-		c.Distinct(fmt.Sprintf("err|%s|%d", k.Entry, minInt(k.FailAt, 5)))
+		c.Distinct(fmt.Sprintf("err|%s|%d|%d", k.Entry, minInt(k.FailAt, 5), k.ErrCls))
+		c.SetAdd("error_values_returned", fmt.Sprintf("%T", err))
 	}
 }
 
@@ -271,6 +285,8 @@ func c02Run(c *fw.Ctx, b fw.Batch) {
 			hdr := len(lib.Header(s, lim))
 			failAt := r.Intn(hdr + 1)
 			c02Judge(c, c02Case{Kind: "reader-fails", In: s, Limit: lim, Entry: "DetectReaderFail", FailAt: failAt})
+			// the same with every class of error value (incl. end-of-input look-alikes of the source itself)
+			c02Judge(c, c02Case{Kind: "reader-fails-class", In: s, Limit: lim, Entry: "DetectReaderFail", FailAt: failAt, ErrCls: 1 + r.Intn(len(c02Errs)-1), ErrWith: r.Intn(2) == 0})
 			if i%50 == 0 {
 				c02Judge(c, c02Case{Kind: "file", In: s, Limit: lim, Entry: "DetectFile"})
 				c02Judge(c, c02Case{Kind: "file-missing", Limit: lim, Entry: "DetectFileMissing"})
@@ -461,5 +477,3 @@ func init() {
 		},
 	})
 }
-
-
